@@ -222,7 +222,9 @@ def _process_and_check_data(data):
     elif isinstance(data, dict) and all(
         isinstance(i, pd.Series) for i in data.values()
     ):
-        pass
+        # Work on a shallow copy: type conversion replaces entries and must not be
+        # visible in the dictionary the caller passed in.
+        data = dict(data)
     else:
         raise NotImplementedError(
             "'data' is not a pd.DataFrame or a pd.Series or a dictionary of pd.Series."
